@@ -28,6 +28,8 @@ COMBOS = [c for c in gen.ALL_COMBOS if c[1] != "tree"]
 def run_case(rs, ctx):
     l, p = COMBOS[ctx.index % len(COMBOS)]
     cfg = gen.gen_cfg(rs, l, p, labels=gen.pick(rs, ["int", "str", "float"]), n_arms=int(rs.integers(2, 5)))
+    if "scale" in cfg["lp"]:
+        cfg["lp"]["scale"] = False  # running standardisation: excluded by the property
     nf = int(gen.pick(rs, [1, 2, 3]))
     n = int(rs.integers(max(8, gen.min_rows(cfg) + 3), 31))
     data = gen.gen_batch(rs, cfg, cfg["arms"], n, nf, distinct_rows=6)
@@ -53,6 +55,13 @@ def run_case(rs, ctx):
             for i in range(bounds[j], bounds[j + 1]):
                 if data["d"][i] == victim:
                     data["d"][i] = gen.pick(rs, others)
+    # sometimes an arm is absent from the prefix altogether: its first observations then arrive through partial_fit
+    if len(bounds) > 2 and len(cfg["arms"]) > 2 and rs.integers(3) == 0:
+        late = gen.pick(rs, cfg["arms"])
+        others = [a for a in cfg["arms"] if a != late]
+        for i in range(0, bounds[1]):
+            if data["d"][i] == late:
+                data["d"][i] = gen.pick(rs, others)
     chunks = [gen.slice_batch(data, bounds[i], bounds[i + 1]) for i in range(len(bounds) - 1)]
     A, B = gen.build(cfg), gen.build(cfg)
     wit = {"cfg": cfg, "data": data, "chunk_bounds": bounds}
